@@ -23,10 +23,11 @@ CONSTANTS Rank,          \* [name -> Nat]: byte order of the addresses
           MaxVals,       \* governance: maximum validator count (the genesis validators must fit)
           AllowEvidence, AllowAbsent, AllowNoProposer,
           AllowRestart,  \* the process may be restarted at any block boundary
+          MaxChecks,     \* number of mempool checks (CheckTx of any transaction of the menu) that may be interleaved anywhere
           KnownD8        \* TRUE: tolerate the clauses of known finding D8 (genesis validator changed in block 1)
 
-VARIABLES s, pre, mon, phase, ntx, ctr, vals, bad, g1changed
-mvars == <<s, pre, mon, phase, ntx, ctr, vals, bad, g1changed>>
+VARIABLES s, pre, mon, phase, ntx, ctr, vals, bad, g1changed, nchk
+mvars == <<s, pre, mon, phase, ntx, ctr, vals, bad, g1changed, nchk>>
 
 Gov0 ==
   [version |-> 1, maxValidatorCnt |-> MaxVals, minValidatorStake |-> PowerAmount(2), minDelegatorStake |-> <<>>, rewardPerPower |-> <<7>>,
@@ -44,7 +45,10 @@ GenesisState ==
       gov |-> Gov0, prevGov |-> Gov0, govLedger |-> [some |-> TRUE, v |-> Gov0], govPending |-> [some |-> FALSE],
       vol |-> [lastVals |-> <<>>, allDelegs |-> [x \in {} |-> 0], limiter |-> NoLimiter, rwdHash |-> "r", evmRoot |-> "r", evmHeight |-> 0],
       tree |-> [delegs |-> [x \in {} |-> 0], frozen |-> <<>>, props |-> [x \in {} |-> 0], fprops |-> [x \in {} |-> 0]],
-      hist |-> [x \in {} |-> 0], docs |-> [x \in {} |-> 0], delivered |-> {}, proposer |-> "none", rank |-> Rank]
+      hist |-> [x \in {} |-> 0], docs |-> [x \in {} |-> 0], delivered |-> {}, proposer |-> "none", rank |-> Rank,
+      \* the genesis state is not a committed version: until block 1 is committed the mempool sees nothing
+      mem |-> [accts |-> [x \in {} |-> 0], delegs |-> [x \in {} |-> 0], frozen |-> <<>>, rewards |-> [x \in {} |-> 0],
+               props |-> [x \in {} |-> 0], limiter |-> NoLimiter]]
 
 GenesisEvent == [ev |-> "Genesis", post |-> GenesisState, apphash |-> "h",
                  validators |-> LET order == AscSeq(Rank, DOMAIN GenVals) IN [i \in 1..Len(order) |-> [v |-> order[i], pow |-> GenVals[order[i]]]]]
@@ -79,7 +83,7 @@ Init ==
   /\ s = Warm(WarmBlocks).s /\ pre = s /\ mon = Warm(WarmBlocks).mon
   /\ phase = "idle" /\ ntx = 0 /\ ctr = 0
   /\ vals = [prev |-> GenVals, cur |-> GenVals, next |-> GenVals]
-  /\ bad = {} /\ g1changed = FALSE
+  /\ bad = {} /\ g1changed = FALSE /\ nchk = 0
 
 ---------------------------------------------------------------------------
 (* the consensus engine *)
@@ -170,7 +174,7 @@ DoBegin ==
            e == [ev |-> "BeginBlock", h |-> hd.h, proposer |-> hd.proposer, votes |-> hd.votes, evidence |-> hd.evidence, panic |-> "", resp |-> r.resp]
        IN Judge(e, r.s)
   /\ phase' = "block" /\ ntx' = 0
-  /\ UNCHANGED <<ctr, vals, g1changed>>
+  /\ UNCHANGED <<ctr, vals, g1changed, nchk>>
 
 DoDeliver ==
   /\ phase = "block" /\ ntx < MaxTxs
@@ -179,7 +183,7 @@ DoDeliver ==
            e == [ev |-> "DeliverTx", tx |-> tx, resp |-> r.resp, panic |-> ""]
        IN Judge(e, r.s)
   /\ ntx' = ntx + 1 /\ ctr' = ctr + 1
-  /\ UNCHANGED <<phase, vals, g1changed>>
+  /\ UNCHANGED <<phase, vals, g1changed, nchk>>
 
 DoEnd ==
   /\ phase = "block"
@@ -188,7 +192,7 @@ DoEnd ==
      IN /\ Judge(e, r.s)
         /\ vals' = [prev |-> vals.cur, cur |-> vals.next, next |-> ApplyUps(vals.next, r.resp.valUpdates)]
   /\ phase' = "ended"
-  /\ UNCHANGED <<ntx, ctr, g1changed>>
+  /\ UNCHANGED <<ntx, ctr, g1changed, nchk>>
 
 DoCommit ==
   /\ phase = "ended"
@@ -197,7 +201,7 @@ DoCommit ==
      IN /\ Judge(e, r.s)
         /\ g1changed' = IF s.h = 1 THEN r.s.delegs # GenesisState.delegs ELSE g1changed
   /\ phase' = "idle"
-  /\ UNCHANGED <<ntx, ctr, vals>>
+  /\ UNCHANGED <<ntx, ctr, vals, nchk>>
 
 \* process restart at a block boundary: everything that influences execution must be rebuilt (C07)
 DoRestart ==
@@ -205,9 +209,19 @@ DoRestart ==
   /\ LET r == Restart(s)
          e == [ev |-> "Restart", resp |-> [h |-> r.resp.h, hash |-> mon.lastHash], panic |-> ""]
      IN Judge(e, r.s)
-  /\ UNCHANGED <<phase, ntx, ctr, vals, g1changed>>
+  /\ UNCHANGED <<phase, ntx, ctr, vals, g1changed, nchk>>
 
-Next == DoBegin \/ DoDeliver \/ DoEnd \/ DoCommit \/ DoRestart
+\* a mempool check of any transaction of the menu, at any point between the consensus calls (C06)
+DoCheck ==
+  /\ nchk < MaxChecks /\ s.lastH < WarmBlocks + MaxBlocks
+  /\ \E tx \in Txs :
+       LET r == CheckTx(s, tx)
+           e == [ev |-> "CheckTx", tx |-> tx, resp |-> r.resp, panic |-> ""]
+       IN Judge(e, r.s)
+  /\ nchk' = nchk + 1 /\ ctr' = ctr + 1
+  /\ UNCHANGED <<phase, ntx, vals, g1changed>>
+
+Next == DoBegin \/ DoDeliver \/ DoEnd \/ DoCommit \/ DoRestart \/ DoCheck
 
 Spec == Init /\ [][Next]_mvars
 
